@@ -65,6 +65,9 @@ class L1(BasePenalty):
 
     def alpha_max(self, gradient0):
         """Return penalization value for which 0 is solution."""
+        if self.positive:
+            # with a positivity constraint only negative gradients move a coefficient away from 0
+            return max(0., np.max(-gradient0))
         return np.max(np.abs(gradient0))
 
 
@@ -139,6 +142,9 @@ class L1_plus_L2(BasePenalty):
 
     def alpha_max(self, gradient0):
         """Return penalization value for which 0 is solution."""
+        if self.positive:
+            # with a positivity constraint only negative gradients move a coefficient away from 0
+            return max(0., np.max(-gradient0))
         return np.max(np.abs(gradient0))
 
 
@@ -206,6 +212,9 @@ class WeightedL1(BasePenalty):
     def alpha_max(self, gradient0):
         """Return penalization value for which 0 is solution."""
         nnz_weights = self.weights != 0
+        if self.positive:
+            # with a positivity constraint only negative gradients move a coefficient away from 0
+            return max(0., np.max(-gradient0[nnz_weights] / self.weights[nnz_weights]))
         return np.max(np.abs(gradient0[nnz_weights] / self.weights[nnz_weights]))
 
 
@@ -280,6 +289,9 @@ class MCPenalty(BasePenalty):
 
     def alpha_max(self, gradient0):
         """Return penalization value for which 0 is solution."""
+        if self.positive:
+            # with a positivity constraint only negative gradients move a coefficient away from 0
+            return max(0., np.max(-gradient0))
         return np.max(np.abs(gradient0))
 
 
@@ -363,6 +375,9 @@ class WeightedMCPenalty(BasePenalty):
     def alpha_max(self, gradient0):
         """Return penalization value for which 0 is solution."""
         nnz_weights = self.weights != 0
+        if self.positive:
+            # with a positivity constraint only negative gradients move a coefficient away from 0
+            return max(0., np.max(-gradient0[nnz_weights] / self.weights[nnz_weights]))
         return np.max(np.abs(gradient0[nnz_weights] / self.weights[nnz_weights]))
 
 
